@@ -473,7 +473,32 @@ func randMutagenPattern(r *rand.Rand, hint [][]string) Raw {
 	if r.Intn(4) == 0 {
 		comps = append(comps, []string{})
 	}
-	return normRaw(Raw{Neg: r.Intn(3) == 0, Comps: comps})
+	return normRaw(Raw{Neg: r.Intn(3) == 0, Comps: noAdjacentDoubleStars(comps)})
+}
+
+// noAdjacentDoubleStars replaces a "**" component that follows another one
+// (ignoring empty and "." components, which cleaning removes) by "*":
+// doublestar treats consecutive "**" components specially ("a/**/**" does not
+// match "a" although "a/**" does), so they are outside the token grammar.
+func noAdjacentDoubleStars(comps [][]string) [][]string {
+	last := false
+	for i, cp := range comps {
+		s := strings.Join(cp, "")
+		if s == "" || s == "." {
+			continue
+		}
+		if s == "**" {
+			if last {
+				comps[i] = []string{"*"}
+				last = false
+				continue
+			}
+			last = true
+		} else {
+			last = false
+		}
+	}
+	return comps
 }
 
 func randPath(r *rand.Rand, maxDepth int) [][]string {
